@@ -55,11 +55,11 @@ default_registry = ExtensionRegistry()
 register = default_registry.register_extension
 
 
-def _parse(txt):
+def _parse(txt, **kwargs):
     """parse text....and try to return a 'better' (some inner) node"""
     from mwlib.parser.refine.compat import parse_txt
 
-    res = parse_txt(txt)
+    res = parse_txt(txt, **kwargs)
 
     if len(res.children) != 1:
         res.__class__ = parser.Node
@@ -71,6 +71,16 @@ def _parse(txt):
         res.__class__ = parser.Node
 
     return res
+
+
+def _parse_source(source, vlist=""):
+    """the node for <source vlist>source</source>. The body is handed over as an already
+    protected region, so nothing inside it - not even a closing </source> - is interpreted"""
+    from mwlib.utils.uniq import Uniquifier
+
+    uniquifier = Uniquifier()
+    region = {"tagname": "source", "inner": source, "vlist": vlist, "complete": ""}
+    return _parse(uniquifier.get_uniq(region, "source"), uniquifier=uniquifier)
 
 
 class TagExtension:
@@ -151,7 +161,7 @@ class IDLExtension(TagExtension):
     name = "idl"
 
     def __call__(self, source, attributes):
-        return self.parse('<source lang="idl">%s</source>' % source)
+        return _parse_source(source, ' lang="idl"')
 
 
 register(IDLExtension)
@@ -163,11 +173,7 @@ class Syntaxhighlight(TagExtension):
     name = "syntaxhighlight"
 
     def __call__(self, source, attributes):
-        return self.parse(
-            "<source{}>{}</source>".format(
-                "".join(f" {k}={v}" for k, v in attributes.items()), source
-            )
-        )
+        return _parse_source(source, "".join(f" {k}={v}" for k, v in attributes.items()))
 
 
 register(Syntaxhighlight)
